@@ -5,6 +5,8 @@ import collections
 import copy
 import math
 
+import numpy as np
+
 from lib import HEADER, Check, check_props, close, coq_eval, first_diff, fl, fl_list, gen_stream_real, z
 
 HDR = HEADER + "From FV Require Import Queue Stats.\n"
@@ -325,6 +327,50 @@ def run(ck: Check):
         ck.count("ewma_extreme_cases")
         if any(not (g == r or (math.isfinite(r) and abs(g - r) <= 1e-12 * abs(r))) for g, r in zip(got, exp)):
             ck.violation(dict(clause="statistic-definition", stat="EWMA", regime="extreme"), dict(what="EWMA differs from alpha x + (1 - alpha) mean on extreme magnitudes / at the ends of alpha's range", alpha=alpha, values=xs, got=got, expected=exp))
+    # the statistics fed NumPy INTEGER scalars (narrow and 64-bit, unsigned included; sums of the values pass the type's range):
+    # the definitions are about the values, whatever numeric type carries them (deterministic)
+    for dt, vals in ((np.uint8, [200, 100, 7, 255, 255, 255]), (np.uint64, [200, 100, 7, 255]), (np.int8, [100, 50, -7, 120, 120]), (np.int64, [2**62, 2**62, 2**62, -5]), (np.uint16, [65535, 65535, 1])):
+        fv = [float(v) for v in vals]
+        try:
+            m, e, c, p = Mean(), EWMA(alpha=0.3), CircularMean(size=3), PrequentialError(alpha=0.9)
+            got = []
+            for v in vals:
+                x = dt(v)
+                m.update(x)
+                e.update(x)
+                c.update(x)
+                pv = p(x)
+                got.append((float(m.get()), float(e.get()), float(c.get()), float(pv)))
+        except Exception as ex:  # noqa: BLE001
+            ck.violation(dict(clause="statistic-definition", regime="typed-values", dtype=dt.__name__, error=type(ex).__name__), dict(what="a statistic raised on NumPy integer scalars", dtype=dt.__name__, values=vals, error=repr(ex)))
+            continue
+        ck.case(dict(kind="stats-typed-values", dtype=dt.__name__, values=vals), nontrivial=True, key=repr(("typed-stats", dt.__name__)))
+        ck.count("typed_value_stat_cases")
+        ew = 0.0
+        for t in range(1, len(fv) + 1):
+            ew = 0.3 * fv[t - 1] + 0.7 * ew
+            den = math.fsum(0.9 ** (t - 1 - k) for k in range(t))
+            ref = (math.fsum(fv[:t]) / t, ew, math.fsum(fv[max(0, t - 3) : t]) / min(t, 3), math.fsum(0.9 ** (t - 1 - k) * fv[k] for k in range(t)) / den)
+            bad = [nm for nm, g, r in zip(("Mean", "EWMA", "CircularMean", "PrequentialError"), got[t - 1], ref) if not abs(g - r) <= 1e-9 * max(1.0, abs(r))]
+            if bad:
+                ck.violation(dict(clause="statistic-definition", stat=bad[0], regime="typed-values", dtype=dt.__name__),
+                             dict(what="fed NumPy integer scalars the statistic leaves its definition", stat=bad, dtype=dt.__name__, values=vals[:t], got=got[t - 1], expected=ref))
+                break
+    # PrequentialError with a fading factor next to 1 (valid: alpha in (0, 1]): sum alpha^(t-i) e_i / sum alpha^(t-i), reference by
+    # direct summation; an algebraically equal closed form of the denominator, (1 - alpha^t) / (1 - alpha), cancels there
+    for pal in (1 - 1e-9, 1 - 1e-12, float(np.nextafter(1.0, 0.0)), 1 - 2.0**-30):
+        errs = [float((7 * k) % 5 < 2) for k in range(60)]
+        p = PrequentialError(alpha=pal)
+        got = [float(p(er)) for er in errs]
+        ck.case(dict(kind="prequential-alpha-next-to-1", alpha=repr(pal)), nontrivial=True, key=repr(("preq-near1", repr(pal))))
+        ck.count("prequential_alpha_next_to_one_cases")
+        for t in range(1, len(errs) + 1):
+            den = math.fsum(pal ** (t - 1 - k) for k in range(t))
+            ref = math.fsum(pal ** (t - 1 - k) * errs[k] for k in range(t)) / den
+            if not abs(got[t - 1] - ref) <= 1e-11:
+                ck.violation(dict(clause="statistic-definition", stat="PrequentialError", regime="alpha-next-to-1"),
+                             dict(what="PrequentialError differs from sum alpha^(t-i) e_i / sum alpha^(t-i) for a fading factor next to 1", alpha=repr(pal), errors=errs[:t], got=got[t - 1], expected=ref))
+                break
     # ---------------------------------------------------------------- statistics
     ck.rule(
         "statistics: structured random real streams (constant, gaussian, shifted, ramps, ties, cancellation-prone), parameters on their boundaries "
